@@ -441,6 +441,17 @@ class Sym(Stub):
         cols = object.__getattribute__(self, "_cols")
         if name in cols:
             return cols[name]
+        if name == "pipe":
+            # pandas: obj.pipe(f, *a, **k) is f(obj, *a, **k)
+            me = self
+
+            class _Pipe(Stub):
+                def _abs_call(self_, f, *a, **k):
+                    if isinstance(f, Function):
+                        return f(me, *a, **k)
+                    g = getattr(f, "f", None) or getattr(f, "_abs_call", None) or f
+                    return g(me, *a, **k)
+            return _Pipe()
         return Sym(self._w, "attr", self, name)
 
     def __setattr__(self, name, v):
